@@ -1,8 +1,8 @@
-"""C11 — differential test of the TRANSLATED functions of this property: variable groups (cnfgen/formula/variables.py).
+"""C03 — differential test of the TRANSLATED functions of this property: _vdw_ap_generator (cnfgen/families/ramsey.py).
 See harness/genfuncs.py (what is tested and why) and notes/translator.md."""
 from harness import genfuncs
 
-PROP = "C11"
+PROP = "C03"
 RULE = genfuncs.RULE
 TRUSTED_EXTRA = genfuncs.TRUSTED_EXTRA
 NOTES = []
